@@ -133,12 +133,13 @@ class Rope(object):
     """append-only byte buffer with symbolic capacity: list of (guard, bytes)
     segments; the content is the concatenation of the segments whose guard
     holds"""
-    __slots__ = ('segs', 'cap', 'grow')
+    __slots__ = ('segs', 'cap', 'grow', 'checked')
 
-    def __init__(self, cap):
+    def __init__(self, cap, checked=True):
         self.segs = []
         self.cap = cap
         self.grow = []
+        self.checked = checked
 
 
 class RopeStr(object):
@@ -562,6 +563,8 @@ class Executor(object):
         self.nstage = 0
         self.trace_alloc = False
         self.pool_gets = 0
+        self.in_pool = 0
+        self.escaping = None
         self.name_guards = 6
         self.split_max = 128
 
@@ -692,6 +695,9 @@ class Executor(object):
                 o.val = self.updated(o.val, path, val, gg)
             if o.kind in ('global', 'pool'):
                 self.stores_log.append((gg, o, self.stack[-1].fn.name if self.stack else '?'))
+                if o.kind == 'global' and getattr(self, 'harness', None) is not None:
+                    # after initialisation nothing may write package-level state (C14: confinement)
+                    self.oblige('confinement', gg, 'store to package-level variable %s' % (o.site,), ins)
 
     # ---------------------------------------------------------- obligations
 
@@ -830,8 +836,35 @@ class Executor(object):
             tot = bvop('bvadd', tot, Ite(g, bv(len(bs), 64), bv(0, 64)))
         return tot
 
+    def rope_flat(self, s):
+        """[(guard, byte term)] of a rope string, or of a plain string with one alternative"""
+        if isinstance(s, RopeStr):
+            out = []
+            for g, bs in s.segs:
+                for b in bs:
+                    out.append((g, b))
+            return out
+        if isinstance(s, Str) and len(s.alts) == 1 and isinstance(s.alts[0][1], tuple):
+            return [(s.alts[0][0], b) for b in s.alts[0][1]]
+        raise Unsupported('rope compared with a multi-alternative string')
+
     def rope_eq(self, a, b):
-        raise Unsupported('rope equality is decided structurally by the harness driver (verif.RopeEqual)')
+        """structural equality of two append-only buffers: same sequence of conditional bytes with
+        pairwise equivalent conditions (sufficient for equality of the strings; if the two
+        sequences cannot be aligned the comparison is not supported -> inconclusive)"""
+        fa, fb = self.rope_flat(a), self.rope_flat(b)
+        if len(fa) != len(fb):
+            raise Unsupported('ropes of different shape (%d vs %d conditional bytes)' % (len(fa), len(fb)))
+        cs = []
+        for (ga, ba), (gb, bb) in zip(fa, fb):
+            if ba is not bb:
+                e = Eq(ba, bb)
+                if e is FALSE:
+                    raise Unsupported('ropes of different shape (different bytes at the same position)')
+                cs.append(Or(Not(ga), e))
+            if ga is not gb:
+                cs.append(Eq(ga, gb))
+        return And(*cs)
 
     # ---------------------------------------------------------- operand evaluation
 
@@ -1221,7 +1254,7 @@ class Executor(object):
         o.site = (act.fn.name, ins['n'], ins.get('comment', ''), ins.get('pos', ''))
         o.birth = act.guard
         if ins['heap']:
-            self.alloc_events.append((act.guard, o.site, act.fn.name))
+            self.alloc_events.append((act.guard, o.site, act.fn.name, self.in_pool))
         return Ptr([(TRUE, o, (), None)])
 
     def i_store(self, act, ins):
@@ -1298,6 +1331,9 @@ class Executor(object):
                 alts = []
                 for ga, ca in x.alts:
                     for gb, cb in y.alts:
+                        if isinstance(ca, tuple) and isinstance(cb, VarS):
+                            alts.append((And(ga, gb), VarS(ca + cb.base, bvop('bvadd', cb.len, bv(len(ca), 64)))))
+                            continue
                         if isinstance(ca, (Long, VarS)) or isinstance(cb, (Long, VarS)):
                             raise Unsupported('concatenation of unbounded string')
                         alts.append((And(ga, gb), ca + cb))
@@ -1420,10 +1456,10 @@ class Executor(object):
                 raise Unsupported('[]byte(s) of multi-alternative string')
             c = x.alts[0][1]
             o = self.new_obj('[]byte!', Arr(list(c)), 'heap', ins.get('pos', ''), act.fn.name, True)
-            self.alloc_events.append((act.guard, (act.fn.name, ins['n'], 'string2bytes', ins.get('pos', '')), act.fn.name))
+            self.alloc_events.append((act.guard, (act.fn.name, ins['n'], 'string2bytes', ins.get('pos', '')), act.fn.name, self.in_pool))
             return Slc([(TRUE, o, 0, len(c), len(c))])
         if isinstance(x, Slc) and dk['k'] == 'basic' and dk['name'] == 'string':
-            self.alloc_events.append((act.guard, (act.fn.name, ins['n'], 'bytes2string', ins.get('pos', '')), act.fn.name))
+            self.alloc_events.append((act.guard, (act.fn.name, ins['n'], 'bytes2string', ins.get('pos', '')), act.fn.name, self.in_pool))
             return self.slice_to_string(x, act.guard)
         if isinstance(x, Str) and dk['k'] == 'basic' and dk['name'] == 'string':
             return x
@@ -1665,7 +1701,7 @@ class Executor(object):
         cp = self.ev(act, ins['cap'])
         elem = self.p.under(ins['t'])['elem']
         site = (act.fn.name, ins['n'], 'makeslice', ins.get('pos', ''))
-        self.alloc_events.append((act.guard, site, act.fn.name))
+        self.alloc_events.append((act.guard, site, act.fn.name, self.in_pool))
         ek = self.p.under(elem)
         if cp.op != 'const' or ln.op != 'const':
             if ek.get('name') in ('uint8', 'byte') and ln.op == 'const' and ln.val == 0:
@@ -1779,8 +1815,11 @@ class Executor(object):
                         rope.segs.append((gg, tuple(so.val.e[off:off + ln])))
             else:
                 raise Unsupported('append source')
-            # growth obligation: total length must stay within capacity
-            rope.grow.append((guard, self.rope_len(rope.segs), ins.get('pos', '') if ins else ''))
+            # growth obligation: total length must stay within capacity (else append reallocates)
+            if rope.checked:
+                ln = self.rope_len(rope.segs)
+                rope.grow.append((guard, ln, ins.get('pos', '') if ins else ''))
+                self.oblige('growth', And(guard, Not(bvcmp('sle', ln, rope.cap))), 'append beyond the capacity computed for the buffer (reallocation)', ins)
             return dst
         # generic: concrete lengths
         if isinstance(src, Str):
@@ -1814,7 +1853,7 @@ class Executor(object):
                     old = list(o.val.e[off:off + ln]) if o is not None else []
                     site = (act.fn.name, ins.get('n', '?') if ins else '?', 'append-grow', ins.get('pos', '') if ins else '')
                     no = self.new_obj('grown', Arr(old + elems), 'heap', site, act.fn.name, True)
-                    self.alloc_events.append((And(guard, gg), site, act.fn.name))
+                    self.alloc_events.append((And(guard, gg), site, act.fn.name, self.in_pool))
                     out.append((gg, no, 0, ln + n, ln + n))
         return Slc(fuse_alts(out, slc_key))
 
@@ -1856,6 +1895,40 @@ def stub_nondet_string(ex, args, guard, ins):
     return Str(alts)
 
 
+def stub_bytebuf(ex, args, guard, ins):
+    """verif.ByteBuf(): an empty append-only byte buffer with enough capacity (reference serialisers)"""
+    ex.nfresh += 1
+    o = ex.new_obj('[]byte!rope', Rope(var('bufcap!%d' % ex.nfresh, 64), checked=False), 'heap', ('verif.ByteBuf', '', '', ''), None, True)
+    return Slc([(TRUE, o, 0, 0, 0)])
+
+
+def stub_alloccount(ex, args, guard, ins):
+    """verif.AllocCount(): number of heap allocations performed so far on this path: allocation sites
+    of the module that the gc compiler reports as escaping (go build -gcflags=-m), outside sync.Pool's New"""
+    tot = bv(0, 64)
+    for ev in ex.alloc_events:
+        g, site, fn, inpool = ev
+        if inpool:
+            continue
+        pos = site[3] if isinstance(site, tuple) and len(site) > 3 else ''
+        fl = ':'.join(pos.split(':')[:2])
+        if ex.escaping is not None and fl not in ex.escaping:
+            continue
+        if not pos.startswith('/repo/'):
+            continue
+        tot = bvop('bvadd', tot, Ite(g, bv(1, 64), bv(0, 64)))
+    return tot
+
+
+def stub_nondet_bytes(ex, args, guard, ins):
+    """verif.NondetBytes(name, n): a string of exactly n arbitrary bytes"""
+    nm = _label(args[0])
+    n = _intarg(args[1])
+    bs = tuple(var('%s_b%d' % (nm, i), 8) for i in range(n))
+    ex.inputs[nm] = {'kind': 'bytes', 'len': n}
+    return Str([(TRUE, bs)])
+
+
 def stub_nondet_uint8(ex, args, guard, ins):
     nm = _label(args[0])
     ex.inputs[nm] = {'kind': 'uint8'}
@@ -1892,6 +1965,11 @@ def stub_nondet_float(ex, args, guard, ins):
 
 def stub_assume(ex, args, guard, ins):
     ex.assume(Implies(guard, args[0]))
+    if guard is TRUE:
+        # an unconditional assumption "x != c" on an input byte also folds later tests of x == c
+        for l in TM._lits(args[0]):
+            if l.op == 'not' and l.args[0].op == 'eq' and l.args[0].args[0].op == 'var' and l.args[0].args[1].op == 'const':
+                TM.KNOWN_FALSE.add(l.args[0].id)
     return None
 
 
@@ -1989,7 +2067,11 @@ def stub_pool_get(ex, args, guard, ins):
                 fnv = f
     if fnv is None:
         raise Unsupported('sync.Pool without New')
-    v = ex.call_function(fnv.name, [], guard, ins)
+    ex.in_pool += 1
+    try:
+        v = ex.call_function(fnv.name, [], guard, ins)
+    finally:
+        ex.in_pool -= 1
     ex.pool_gets += 1
     k = ex.pool_gets
     # havoc the contents of what New returned
@@ -2060,6 +2142,9 @@ def stub_math_max(ex, args, guard, ins):
 STUBS = {
     'verifharness/verif.NondetString': stub_nondet_string,
     'verifharness/verif.NondetUint8': stub_nondet_uint8,
+    'verifharness/verif.NondetBytes': stub_nondet_bytes,
+    'verifharness/verif.ByteBuf': stub_bytebuf,
+    'verifharness/verif.AllocCount': stub_alloccount,
     'verifharness/verif.NondetBool': stub_nondet_bool,
     'verifharness/verif.NondetInt': stub_nondet_int,
     'verifharness/verif.NondetFloat64': stub_nondet_float,
@@ -2072,6 +2157,7 @@ STUBS = {
     'verifharness/verif.Param': stub_param,
     'verifharness/verif.Functional': stub_relation('functional'),
     'verifharness/verif.Monotone': stub_relation('monotone'),
+    'verifharness/verif.Oracle': stub_relation('oracle'),
     '(*sync.Pool).Get': stub_pool_get,
     '(*sync.Pool).Put': stub_pool_put,
     'errors.New': stub_errors_new,
